@@ -302,7 +302,7 @@ CallResult RunCtx::call(Session& s, const CallSpec& c, int stepno, bool monitors
     // once the 32-bit position clock has wrapped, positions of documents that straddle the wrap are meaningless: that
     // is finding F-C15-2 (reported under C15), not a second, independent C06 defect
     static bool clock_wrapped = false;
-    if (UTAP::tracker.position < clock_before)
+    if (UTAP::tracker.position < clock_before && (uint64_t)clock_before + c.bytes.size() + 300000 >= (1ull << 32))
         clock_wrapped = true;
     alarm(300);
     if (g_shared)
